@@ -1,5 +1,6 @@
 //! verification harness for DanielT/autosar-data (runtime monitoring)
 #![allow(clippy::too_many_arguments, clippy::type_complexity, clippy::collapsible_if, clippy::collapsible_else_if)]
+pub mod c14perm;
 pub mod c18;
 pub mod hist;
 pub mod histprops;
